@@ -2,10 +2,10 @@ ID = "C10"
 LEVEL = "model_checking"
 MIRSYM = "C10"
 BOUNDS = ("Server::start_inner for accept outcomes Established / Err / Shutdown in any sequence (3 visits per loop head); the connection task for connection-first / stop-first; ws::background_task "
-          "from every resume point; ws::graceful_shutdown for result Ok(Stopped) / Ok(ConnectionClosed) / Err and every readiness; the per-message task for every call / sink readiness; the low-level driver serve_with_graceful_shutdown from every resume point (a select! in its body is inlined); what is awaited after graceful_shutdown() is the connection itself")
+          "from every resume point; ws::graceful_shutdown for result Ok(Stopped) / Ok(ConnectionClosed) / Err and every readiness; the per-message task for every call / sink readiness; the low-level driver serve_with_graceful_shutdown from every resume point (a select! in its body is inlined); what is awaited after graceful_shutdown() is the connection itself; try_recv for every outcome of its combined future over three loop rounds, any ping configuration")
 EXPLANATION = ("Reduced claim. Symbolic execution of the MIR of the accept loop, the connection task, ws::background_task, ws::graceful_shutdown and the per-message task: z3 decides the token "
                "discipline that makes `stopped` wait - tokens are handed to every connection, dropped only after the connection future completed, pending-call tokens are released only after "
-               "the answer reached the sink, the writer is stopped only after the wait for them, and the accept loop finishes only after every token is gone. The low-level connection driver finishes only with the connection's completion and polls no completed future again.")
+               "the answer reached the sink, the writer is stopped only after the wait for them, and the accept loop finishes only after every token is gone. The low-level connection driver finishes only with the connection's completion and polls no completed future again. The WebSocket receive step reports Stopped exactly when the stop side of its combined future completed, so that started calls are drained whatever the ping bookkeeping says.")
 TRUSTED = ["rustc MIR dump", "z3 / cvc5", "tokio mpsc / oneshot / watch deliver closure and values as documented", "hyper's graceful_shutdown finishes in-flight HTTP requests before the connection future completes"]
 OUTSIDE = ["every relative timing of stop(), handlers and connection tasks (schedules)", "that no call first sent after `stopped` resolved is executed (follows from the tasks having ended; not decided separately)",
            "stopping twice / dropping handles (ServerHandle over a tokio watch channel)", "HTTP in-flight requests inside hyper"]
